@@ -4,6 +4,8 @@
 //! identifiers/strings, `none()`, `all()`, `~x`, `x & y`, `x ~ y`, `x | y | …`, random parentheses,
 //! quoting and whitespace), parsed by the real `fileset::parse` from a random cwd inside the
 //! workspace, over the path universe "every path of length ≤ D over k names".
+//!   A third stream (after seed C31) repeats one glob text under different kinds / case options at
+//!   one directory inside a union (both orders, nested), over universes of case variants.
 //! * Correspondence: the resolved `FilesetExpression` returned by the parser is printed canonically
 //!   (paths as component ids, each glob as the truth table of its regex over the universe — A5) and
 //!   sent to the Lean model, whose `toMatcher` must reproduce `to_matcher().visit(dir)` at every
@@ -329,6 +331,52 @@ fn show_ast(e: &FilesetExpression, uni: &mut Uni, out: &mut Vec<String>, stats: 
     }
 }
 
+/// `as_union_all` of lib/src/fileset.rs (private there): the list that goes into one
+/// `build_union_matcher` call, i.e. into one `GlobsMatcherBuilder` per anchoring family
+fn union_list(e: &FilesetExpression) -> &[FilesetExpression] {
+    match e {
+        FilesetExpression::None => &[],
+        FilesetExpression::UnionAll(es) => es,
+        _ => std::slice::from_ref(e),
+    }
+}
+
+/// Looks for two globs of the same family in one union list with the same directory and the same
+/// pattern *text* but different options (`Glob: PartialEq` compares text and options).  Returns the
+/// strongest class seen: 3 = the earlier one accepts strictly less than the later one over the
+/// universe, 2 = the tables differ otherwise, 1 = same tables, 0 = no such pair.
+fn same_text_pairs(list: &[FilesetExpression], uni: &Uni) -> u8 {
+    let mut best = 0u8;
+    let globs: Vec<&FilePattern> = list.iter().filter_map(|e| match e {
+        FilesetExpression::Pattern(p @ (FilePattern::FileGlob { .. } | FilePattern::PrefixGlob { .. })) => Some(p),
+        _ => None,
+    }).collect();
+    for (i, a) in globs.iter().enumerate() {
+        for b in &globs[i + 1..] {
+            let same = match (a, b) {
+                (FilePattern::FileGlob { dir: d1, pattern: p1 }, FilePattern::FileGlob { dir: d2, pattern: p2 })
+                | (FilePattern::PrefixGlob { dir: d1, pattern: p1 }, FilePattern::PrefixGlob { dir: d2, pattern: p2 }) =>
+                    d1 == d2 && p1.glob() == p2.glob() && **p1 != **p2,
+                _ => false,
+            };
+            if !same { continue; }
+            let (ta, tb) = (glob_table(a, uni), glob_table(b, uni));
+            let narrower_first = ta != tb && ta.bytes().zip(tb.bytes()).all(|(x, y)| x <= y);
+            best = best.max(if narrower_first { 3 } else if ta != tb { 2 } else { 1 });
+        }
+    }
+    for e in list {
+        let sub = match e {
+            FilesetExpression::UnionAll(es) => same_text_pairs(es, uni),
+            FilesetExpression::Intersection(a, b) | FilesetExpression::Difference(a, b) =>
+                same_text_pairs(union_list(a), uni).max(same_text_pairs(union_list(b), uni)),
+            _ => 0,
+        };
+        best = best.max(sub);
+    }
+    best
+}
+
 #[derive(Clone, PartialEq)]
 enum V { All, Nothing, Spec(Option<Vec<String>>, Option<Vec<String>>) }
 fn conv_visit(v: Visit) -> V {
@@ -451,6 +499,133 @@ fn rand_tree(r: &mut Rng, uni: &Uni, cwd_len: usize, depth: usize) -> T {
     }
 }
 
+// ---------------------------------------------------------------------------------------------
+// part 3: unions that repeat the SAME glob text under different kinds / options
+// ---------------------------------------------------------------------------------------------
+
+/// name families closed under case variation; `1` is letter-free, so the case-insensitive kinds keep
+/// it in the literal directory part (the only way for them to be anchored below the cwd / root)
+const CASE_FAMILIES: [&[&str]; 7] = [&["a", "A"], &["b", "B"], &["ab", "AB"], &["ab", "Ab", "aB"], &["a1", "A1"], &["ab", "Ab", "AB"], &["rs", "RS", "Rs"]];
+
+fn case_universe(r: &mut Rng, round: u64) -> Uni {
+    let mut names: Vec<String> = r.pick(&CASE_FAMILIES).iter().map(|s| s.to_string()).collect();
+    match r.below(4) {
+        0 => {}
+        1 | 2 => names.push("1".into()),
+        _ => if names.len() == 2 { for n in *r.pick(&CASE_FAMILIES[..2]) { if !names.contains(&n.to_string()) { names.push(n.to_string()); } } },
+    }
+    if names.len() < 4 && !names.iter().any(|n| n == "1") && r.chance(1, 6) { names.push("1".into()); }
+    // shuffle so that ids (and the order of the universe) do not follow the case pattern
+    for i in (1..names.len()).rev() { let j = r.below(i + 1); names.swap(i, j); }
+    let d = match names.len() { 2 => 2 + (round % 3) as usize, 3 => 2 + (round % 2) as usize, _ => if round % 4 == 0 { 3 } else { 2 } };
+    Uni::new(names, d)
+}
+
+fn flip_case(s: &str) -> String {
+    s.chars().map(|c| if c.is_ascii_lowercase() { c.to_ascii_uppercase() } else { c.to_ascii_lowercase() }).collect()
+}
+
+/// one glob component that contains a glob meta character (so that no kind moves it to the literal
+/// directory part) and, mostly, letters of one of the names (so that case matters)
+fn case_glob_comp(r: &mut Rng, uni: &Uni) -> String {
+    let name = uni.names[r.below(uni.k)].clone();
+    let n: Vec<char> = name.chars().collect();
+    let rest: String = n[1..].iter().collect();
+    match r.below(10) {
+        0 | 1 => format!("{}*", n[0]),
+        2 => format!("*{}", n[n.len() - 1]),
+        3 => if n.len() >= 2 { let i = r.below(n.len()); n.iter().enumerate().map(|(j, c)| if i == j { '?' } else { *c }).collect() } else { format!("{name}*") },
+        4 => format!("[{}z]{rest}", n[0]),
+        5 => format!("{{{name},zz}}"),
+        6 => format!("*{name}"),
+        7 => format!("{name}*"),
+        8 => format!("[!z]{rest}"),
+        _ => r.pick(&["*", "?", "??", "[a-b]*", "*1"]).to_string(),
+    }
+}
+
+fn case_glob(r: &mut Rng, uni: &Uni) -> String {
+    let mut comps = vec![];
+    if r.chance(1, 10) { comps.push("**".to_string()); comps.push(uni.names[r.below(uni.k)].clone()); }
+    else {
+        comps.push(case_glob_comp(r, uni));
+        if r.chance(1, 3) { comps.push(match r.below(4) { 0 | 1 => uni.names[r.below(uni.k)].clone(), 2 => case_glob_comp(r, uni), _ => "**".into() }); }
+    }
+    comps.join("/")
+}
+
+fn glob_kind(r: &mut Rng, anchor: Anchor, icase: bool) -> Kind {
+    let ks: Vec<Kind> = KINDS.iter().copied().filter(|k| k.syntax == Syntax::Glob && k.anchor == anchor && k.icase == icase).collect();
+    *r.pick(&ks)
+}
+
+/// spelling of "glob `glob` anchored at directory `dir`" as argument of kind `k` used from `cwd`
+fn spell(r: &mut Rng, k: &Kind, dir: &[String], cwd: &[String], glob: &str) -> String {
+    let mut comps: Vec<String> = vec![];
+    if !k.cwd { comps.extend(dir.iter().cloned()); }
+    else if !k.icase && r.chance(1, 12) { return format!("{BASE}/{}", dir.iter().map(|s| s.as_str()).chain([glob]).collect::<Vec<_>>().join("/")); }
+    else {
+        let mut common = cwd.iter().zip(dir).take_while(|(a, b)| a == b).count();
+        // sometimes climb higher than necessary and come back down
+        if common > 0 && r.chance(1, 10) { common -= 1; }
+        if r.chance(1, 8) { comps.push(".".into()); }
+        for _ in common..cwd.len() { comps.push("..".into()); }
+        comps.extend(dir[common..].iter().cloned());
+    }
+    comps.push(glob.to_string());
+    let mut s = comps.join("/");
+    if r.chance(1, 20) { s = s.replacen('/', "//", 1); }
+    s
+}
+
+/// operands of a union: 2-3 globs with the same text anchored at the same directory, differing in
+/// kind / case sensitivity (mostly of the same anchoring family), plus a few unrelated operands
+fn same_text_operands(r: &mut Rng, uni: &Uni, cwd: &[String]) -> Vec<T> {
+    let glob = case_glob(r, uni);
+    let digit = uni.names.iter().find(|n| !n.chars().any(|c| c.is_ascii_alphabetic())).cloned();
+    let mut dir: Vec<String> = match r.below(8) {
+        0..=3 => cwd.to_vec(),
+        4 | 5 => cwd[..r.below(cwd.len() + 1)].to_vec(),
+        6 => vec![],
+        _ => rand_lit_comps(r, uni, 0, uni.d - 1),
+    };
+    if let Some(dg) = digit { if dir.len() + 1 < uni.d && r.chance(1, 4) { dir.push(dg); } }
+    let anchor = if r.chance(1, 2) { Anchor::File } else { Anchor::Prefix };
+    let other = |a: Anchor| if a == Anchor::File { Anchor::Prefix } else { Anchor::File };
+    let first_icase = r.chance(1, 3);
+    let mut ops: Vec<T> = vec![];
+    for j in 0..if r.chance(1, 4) { 3 } else { 2 } {
+        let icase = if j == 0 { first_icase } else if r.chance(3, 4) { !first_icase } else { r.chance(1, 2) };
+        let a = if j > 0 && r.chance(1, 8) { other(anchor) } else { anchor };
+        let k = glob_kind(r, a, icase);
+        let arg = spell(r, &k, &dir, cwd, &glob);
+        let q = r.below(3) as u8;
+        ops.push(T::Pat(k, arg, q));
+    }
+    // controls: the same text in the other case / at another directory; unrelated leaves
+    if r.chance(1, 5) { let ic = r.chance(1, 2); let k = glob_kind(r, anchor, ic); let arg = spell(r, &k, &dir, cwd, &flip_case(&glob)); let i = r.below(ops.len() + 1); ops.insert(i, T::Pat(k, arg, 1)); }
+    if r.chance(1, 6) { let ic = r.chance(1, 2); let k = glob_kind(r, anchor, ic); let d2 = rand_lit_comps(r, uni, 0, uni.d - 1); let arg = spell(r, &k, &d2, cwd, &glob); let i = r.below(ops.len() + 1); ops.insert(i, T::Pat(k, arg, 1)); }
+    for _ in 0..r.below(3) { let x = rand_leaf(r, uni, cwd.len()); let i = r.below(ops.len() + 1); ops.insert(i, x); }
+    ops
+}
+
+/// puts `u` under `depth` further operators
+fn wrap(r: &mut Rng, uni: &Uni, cwd_len: usize, mut u: T, depth: usize) -> T {
+    for _ in 0..depth {
+        let dx = r.below(2); let x = rand_tree(r, uni, cwd_len, dx);
+        u = match r.below(8) {
+            0 | 1 => T::Di(Box::new(u), Box::new(x)),
+            2 => T::In(Box::new(u), Box::new(x)),
+            3 => T::In(Box::new(x), Box::new(u)),
+            4 => T::Di(Box::new(x), Box::new(u)),
+            5 => T::Neg(Box::new(u)),
+            6 => T::Un(vec![x, u]),
+            _ => T::Un(vec![u, x, T::None]),
+        };
+    }
+    u
+}
+
 fn describe(t: &T) -> String {
     match t {
         T::None => "none()".into(), T::All => "all()".into(),
@@ -505,7 +680,10 @@ fn one(out: &mut Out, uni: &mut Uni, cwd: &[String], src: &str, reference: Resul
             let n_match = matches.iter().filter(|b| **b).count();
             out.tally("patterns", &stats.0.min(6).to_string());
             out.tally("globs", &stats.1.min(4).to_string());
+            let pairs = if stats.1 >= 2 { same_text_pairs(union_list(&expr), uni) } else { 0 };
+            out.tally("same-text-globs-in-one-union", ["none", "different-options,same-table", "different-options,different-table", "different-options,narrower-first"][pairs as usize]);
             if n_match > 0 && n_match < uni.paths.len() { out.nontrivial((&req, src)); }
+            if pairs >= 2 && n_match > 0 && n_match < uni.paths.len() { out.tally("same-text-globs-in-one-union", "different-options,different-table,some-but-not-all-paths-match"); }
             out.tally("matching-paths", if n_match == 0 { "none" } else if n_match == uni.paths.len() { "all" } else { "some" });
             match reference {
                 Err(false) => out.oracle_fail("fileset:invalid-expression-accepted", format!("{ctx}: parsed to {expr:?}")),
@@ -564,6 +742,37 @@ pub fn run(cfg: &Cfg, out: &mut Out) {
             let src = text(&t, &mut r);
             uni.names.truncate(k);
             one(out, &mut uni, &cwd, &src, rf.as_ref().map_err(|e| *e), &describe(&t));
+        }
+    }
+
+    // part 3: the same glob text several times in one union, under different kinds and options,
+    // both operand orders, nested under further operators, over case-variant universes
+    out.note("same-text stream: unions holding 2-3 globs with identical text anchored at one directory under different kinds (cwd-/root-relative, aliases, bare) and case options, both operand orders, wrapped in 0-3 further operators, names = case variants (+ the letter-free `1`)".to_string());
+    let mut r = cfg.rng(3103);
+    let rounds = cfg.n(300, 5000);
+    for round in 0..rounds {
+        let mut uni = case_universe(&mut r, round);
+        let k = uni.k;
+        let cwd_len = match r.below(5) { 0 | 1 => 0, 2 | 3 => 1, _ => 2 }.min(uni.d - 1);
+        let cwd: Vec<String> = rand_lit_comps(&mut r, &uni, cwd_len, cwd_len);
+        for i in 0..8 {
+            let ops = same_text_operands(&mut r, &uni, &cwd);
+            let rev: Vec<T> = ops.iter().rev().cloned().collect();
+            let mut trees = vec![T::Un(ops.clone()), T::Un(rev.clone())];
+            let depth = 1 + i % 3;
+            trees.push(wrap(&mut r, &uni, cwd.len(), T::Un(ops.clone()), depth));
+            trees.push(wrap(&mut r, &uni, cwd.len(), T::Un(rev), depth));
+            if ops.len() >= 3 {
+                // the repeated text on both sides of a parenthesised (not flattened) union
+                let (head, tail) = ops.split_at(1 + r.below(ops.len() - 2));
+                trees.push(T::Un(vec![T::Un(head.to_vec()), T::Un(tail.to_vec())]));
+            }
+            for t in &trees {
+                let rf = ref_build(t, &cwd, BASE);
+                let src = text(t, &mut r);
+                uni.names.truncate(k);
+                one(out, &mut uni, &cwd, &src, rf.as_ref().map_err(|e| *e), &describe(t));
+            }
         }
     }
 }
